@@ -115,8 +115,12 @@ PLAN["C14"] = other(
     "equidistant ones - iff within maxDifference, inclusive and tolerant like isclose; labels and count kept; "
     "adjusted times stay in time order; ValueError iff the reference has no timestamps); the per-iteration "
     "min(..., key=) is handled by an iteration skolem function. The tolerance comparison lessThanOrEqual / isclose "
-    "is proved separately. Bounded: IntervalTier.dejitter, alignBoundariesAcrossTiers and morph on dyadic grids "
-    "(exhaustive) and random decimals.",
+    "is proved separately. IntervalTier.dejitter and morph are proved to return a well-formed tier with the same "
+    "number of entries or to raise TextgridStateError (SafeZipException for mismatched counts) and nothing else, without "
+    "touching their operands - the clause 'raises instead of returning an ill-formed tier' - by summarising their "
+    "loops as arbitrary lists handed to the validating constructor (R-HAVOC). Bounded: which timestamps "
+    "IntervalTier.dejitter moves, alignBoundariesAcrossTiers and morph's durations/gaps on dyadic grids (exhaustive) "
+    "and random decimals.",
     "Boundary adjusters move times only as far as allowed and keep labels: proved for point-tier dejitter and the "
     "threshold kernel, the rest on the stated bounded domain.", ["c14_adjusters"])
 PLAN["C15"] = other(
@@ -395,6 +399,9 @@ CANARIES = [
     {"name": "lte-tolerance", "props": ["C14"], "file": "praatio/utilities/my_math.py",
      "target": "praatio.utilities.my_math.lessThanOrEqual",
      "old": "    return isclose(a, b) or a < b", "new": "    return isclose(a, b, 1e-3) or a < b"},
+    {"name": "idejitter-touches-receiver", "props": ["C14", "C05"], "file": IT, "target": ITC + ".dejitter",
+     "old": "            newEntries.append((start, stop, label))\n\n        return self.new(entries=newEntries)",
+     "new": "            newEntries.append((start, stop, label))\n\n        self.maxTimestamp = maxDifference\n        return self.new(entries=newEntries)"},
     {"name": "pdejitter-farthest", "props": ["C14"], "file": PT, "target": PTC + ".dejitter",
      "old": "timeCompare = min(referenceTimestamps", "new": "timeCompare = max(referenceTimestamps"},
     {"name": "pdejitter-strict", "props": ["C14"], "file": PT, "target": PTC + ".dejitter",
